@@ -51,6 +51,22 @@ class StoreObj:
         fields = {'state': self.state, 'values': self.values, 'keys': self.keys, 'is_mapper': dtype == 'mapper',
                   'default_value': self.default, 'data_type': dtype_sv(dtype), 'next_index': SInt(self.next_index),
                   'free_slots': self.free}
+        # scalar configuration fields come from the REAL constructor (run symbolically for this data type / default); the containers
+        # it creates (empty) are generalised to arbitrary well-formed contents.  A field the constructor starts to set is thus seen.
+        self.init_fields = {}
+        try:
+            init = eng.world.class_method((MOD, 'MemoryStore'), '__init__')
+            blank = eng.new_obj(p, 'obj', ('obj', {}, (MOD, 'MemoryStore')))
+            res = eng.call(p, init, [blank], {'name': None, 'data_type': dtype_sv(dtype), 'default_value': self.default})
+            if len(res) == 1 and res[0][0].exc is None:
+                self.init_fields = dict(p.heap[blank.oid][1])
+                for k_, v_ in self.init_fields.items():
+                    if k_ not in fields and not isinstance(v_, Ref):
+                        fields[k_] = v_
+                    elif k_ not in fields:
+                        fields[k_] = v_
+        except Unsupported as u:
+            self.init_unsupported = str(u)
         self.ref = eng.new_obj(p, 'obj', ('obj', fields, (MOD, 'MemoryStore')))
 
     def S(self, j): return V.i(Select(self.state_a, j))
@@ -301,6 +317,37 @@ def unit_memory_store(opts):
 
 
 # ---------------------------------------------------------------------------------------------- allocator, delegation, topology
+class InitCase(FnCase):
+    """MemoryStore.__init__: an empty, well-formed store whose value container matches the declared data type"""
+
+    def __init__(self, dtype, kind, code, with_default):
+        self.dtype = dtype; self.kind = kind; self.code = code; self.with_default = with_default
+        self.name = f'MemoryStore.__init__[{dtype}{",default" if with_default else ""}]'
+
+    def setup(self, eng, p):
+        self.eng = eng
+        init = eng.world.class_method((MOD, 'MemoryStore'), '__init__')
+        self.blank = eng.new_obj(p, 'obj', ('obj', {}, (MOD, 'MemoryStore')))
+        self.d = SVal(Const('default', Val)) if self.with_default else None
+        return init, [self.blank], {'name': None, 'data_type': dtype_sv(self.dtype), 'default_value': self.d}
+
+    def ensures(self, q, ret):
+        f = q.heap[self.blank.oid][1]
+        def empty(r, want_code):
+            if not isinstance(r, Ref): return False
+            c = q.heap[r.oid]
+            if c[0] == 'list': return len(c[1]) == 0 and want_code is None
+            if c[0] == 'arr': return z3.is_int_value(z3.simplify(c[2])) and z3.simplify(c[2]).as_long() == 0 and (len(c) > 4 and c[4] == want_code)
+            return False
+        out = [('values_container_matches_type', BoolVal(empty(f.get('values'), self.code))),
+               ('markers_empty_byte_array', BoolVal(empty(f.get('state'), 'B'))), ('keys_empty', BoolVal(empty(f.get('keys'), None))),
+               ('mapper_flag', BoolVal(f.get('is_mapper') is (self.dtype == 'mapper'))),
+               ('default_kept', BoolVal((f.get('default_value') is self.d)))]
+        if self.dtype == 'mapper':
+            out.append(('allocator_initialised', BoolVal(f.get('next_index') == 0 and empty(f.get('free_slots'), 'Q'))))
+        return out
+
+
 class NewIndexCase(FnCase):
     name = 'new_index'
 
@@ -429,6 +476,9 @@ class TopologyCase(FnCase):
 
 def unit_store_misc(opts):
     cases = [NewIndexCase(), DelIndexCase(), TopologyCase()]
+    for (dtype, kind, code) in DTYPES:
+        for wd in ((False, True) if dtype != 'mapper' else (False,)):
+            cases.append(InitCase(dtype, kind, code, wd))
     for m, t, n in (('add_key', 'add_key', 0), ('del_key', 'del_key', 0), ('set', 'set', 1), ('get', 'get', 0), ('add_map', 'add_map', 1), ('get_map', 'get_map', 1), ('del_map', 'del_map', 1)):
         cases.append(DelegationCase('Store', m, t, n))
     for m, t, n in (('add_key', 'add_key', 0), ('del_key', 'del_key', 0), ('set_state', 'set', 1), ('get_state', 'get', 0), ('add_map', 'add_map', 1), ('get_map', 'get_map', 1), ('del_map', 'del_map', 1)):
